@@ -72,9 +72,9 @@ func (o divOp) nbChoices(level int) []int {
 }
 
 // sigCIFloorNTT: DivFloorByLastModulusNTT hands the INTTLazy output of the last row (range [0,2q_l)) to the other
-// moduli without reducing it; the conjugate-invariant INTTLazy returns q_l for a zero coefficient, so every coefficient
-// divisible by q_l comes out one too small.
-const sigCIFloorNTT = "C02/div/DivFloorByLastModulusNTT/conjugate-invariant/coefficient-divisible-by-dropped-modulus-off-by-one"
+// moduli without reducing it; the conjugate-invariant INTTLazy does return values in [q_l,2q_l) (q_l for 0, q_l+1 for
+// 1, ...; the standard-ring one happens not to), so those coefficients come out exactly one too small.
+const sigCIFloorNTT = "C02/div/DivFloorByLastModulusNTT/conjugate-invariant/unreduced-INTTLazy-row-quotient-one-too-small"
 
 var aliasNames = []string{"out-at-reduced-level", "in-place", "out-at-input-level"}
 
@@ -249,10 +249,10 @@ func divAlphaScenario(ch chain, o divOp) engine.Scenario {
 					q := mod[i]
 					for j := 0; j < N; j++ {
 						if w := ref.ModU(want[j], q); out.Coeffs[i][j]%q != w {
-							if CI && o.name == "DivFloorByLastModulusNTT" && ref.ModU(xs[j], mod[level]) == 0 {
-								// known input class (FINDINGS.md): conjugate-invariant ring, coefficient divisible by the
-								// dropped modulus; keep judging the other coefficients
-								fail(c, sigCIFloorNTT, "%s Q=%v level=%d %s: x=%s ≡ 0 mod q_l lane %d: result mod %d is %d, exact floored quotient ≡ %d", ch.name, mod[:level+1], level, aliasNames[alias], xs[j], j, q, out.Coeffs[i][j]%q, w)
+							if CI && o.name == "DivFloorByLastModulusNTT" && ref.AddMod(out.Coeffs[i][j], 1, q) == w {
+								// known class (FINDINGS.md): conjugate-invariant ring, this operation, result exactly one too
+								// small; keep judging the other coefficients
+								fail(c, sigCIFloorNTT, "%s Q=%v level=%d %s: x=%s lane %d: result mod %d is %d, exact floored quotient ≡ %d (one too small)", ch.name, mod[:level+1], level, aliasNames[alias], xs[j], j, q, out.Coeffs[i][j]%q, w)
 								continue
 							}
 							fail(c, "C02/div/"+o.name+"/quotient", "%s Q=%v level=%d nb=%d %s: x=%s lane %d: result mod q_%d=%d is %d, exact quotient %s ≡ %d",
